@@ -309,7 +309,11 @@ pub fn mtud(rng: &mut Rng, r: &mut Runner, maxops: usize) {
                     "reset" => true,
                     _ => false,
                 };
-                if !ok && before.mc <= 1 && w[1] == "acked" {
+                // (recorded finding = configuration minimum_change <= 1 AND this history: the estimate fell to exactly the size of
+                //  the outstanding probe, which the search had placed at or below the estimate; a fall by any other ack, or to
+                //  any other value, under the same configuration is `mtud-mtu-fell`)
+                let probe_at_or_below = matches!(probe, Some((p, s)) if w.get(3).copied() == Some(p.to_string().as_str()) && s <= before.mtu && nowo.mtu == s);
+                if !ok && before.mc <= 1 && w[1] == "acked" && probe_at_or_below {
                     // configuration finding (like minimum_change = 0): the search probes below current_mtu
                     if first(&SEEN_MIN_CHANGE) { r.oracle_fail(&format!("key=mtud-minimum-change-le-1-mtu-falls minimum_change={} current_mtu fell {} -> {} (min_mtu {}) by the ack of a probe", before.mc, before.mtu, nowo.mtu, nowo.min_mtu)); }
                 } else if !ok {
